@@ -153,10 +153,17 @@ def w_product(task):
     return acc
 
 
-def field_cases(ti):
+def field_cases(ti, thorough=False):
     label, kind, dtname, clsname = TARGETS[ti]
     out = []
     seen = set()
+    if thorough:
+        # the C03 check's own case space for this kind (bases, every field alone, all field pairs over reduced alphabets)
+        for d in P3.kind_cases(kind, "quick"):
+            key = tuple(d[x] for x in kind.fields)
+            if key not in seen:
+                seen.add(key)
+                out.append(dict(d))
     for b in bases(kind)[:2]:
         for n in kind.fields:
             for v in kind.alpha[n]:
@@ -364,13 +371,14 @@ def run(only=None):
         s.done()
     # 2. fields
     if not only or "payload_fields" in only:
-        s = rep.sub("payload_fields", "every kind x every field x the field's whole alphabet, one at a time from 2 bases; (cc, sync) rotate with the case index")
+        s = rep.sub("payload_fields", "every kind x every field x the field's whole alphabet, one at a time from 2 bases"
+                    + (" + all field pairs over reduced alphabets (the C03 case space of the kind)" if thorough else "") + "; (cc, sync) rotate with the case index")
         tasks = []
         total = 0
         for ti in range(len(TARGETS)):
-            FIELD_CASES[ti] = field_cases(ti)
+            FIELD_CASES[ti] = field_cases(ti, thorough)
             total += len(FIELD_CASES[ti])
-            tasks += [(ti, lo, hi) for lo, hi in par.chunks(len(FIELD_CASES[ti]), 6)]
+            tasks += [(ti, lo, hi) for lo, hi in par.chunks(len(FIELD_CASES[ti]), 24 if thorough else 6)]
         s.declared = total
         for acc in par.pmap(w_fields, tasks):
             s.merge(acc)
